@@ -44,7 +44,7 @@ def gen(ctx, cmds, n):
 
 
 def run(ctx):
-    ctx.check_proofs(["MPilot.Props.C05"])
+    ctx.check_proofs(["MPilot.Props.C05", "MPilot.Props.C05Tile"])
     model = common.Model()
     orc = numeric.oracle_c05(ctx)
     n = ctx.budget(12, 500)
